@@ -251,3 +251,21 @@ func JSON(v any) json.RawMessage {
 	}
 	return b
 }
+
+// MarkCurrent records the case that is about to run in VERIF_OUT.cur, so that the driver
+// can turn a crash of the worker process (a panic in a goroutine of the code under test)
+// into a replayable violation.
+func MarkCurrent(e Env, part string, replay any) {
+	if e.Out == "" {
+		return
+	}
+	b, _ := json.Marshal(ReplayFile{Part: part, Replay: JSON(replay)})
+	os.WriteFile(e.Out+".cur", b, 0o644)
+}
+
+// ClearCurrent removes the marker (call when a part has finished normally).
+func ClearCurrent(e Env) {
+	if e.Out != "" {
+		os.Remove(e.Out + ".cur")
+	}
+}
